@@ -11,6 +11,7 @@ structure DState where
   objs : Array (Option Obj) := #[]
   src : Src := {}
   minK : Nat := 2
+  cfg : Cfg := {}
 
 def DState.set' (d : DState) (i : Nat) (v : Option Obj) : DState :=
   let o := d.objs
@@ -105,11 +106,11 @@ def stepLine (d : DState) (w : List String) : DState × String :=
       match d.get' id with
       | some (.f64 ker s) =>
         match parseCoords64 cs with
-        | some q => if estimateThrows s then (d, "throw") else if estimateUB s then (d, "ub") else (d, "E " ++ hexOrNan64 (estimate (kernelF64 ker) s q))
+        | some q => if estimateThrows d.cfg s q then (d, "throw") else if estimateUB d.cfg s then (d, "ub") else (d, "E " ++ hexOrNan64 (estimate d.cfg (kernelF64 ker) s q))
         | none => (d, "bad-op")
       | some (.f32 ker s) =>
         match parseCoords32 cs with
-        | some q => if estimateThrows s then (d, "throw") else if estimateUB s then (d, "ub") else (d, "E " ++ hexOrNan32 (estimate (kernelF32 ker) s q))
+        | some q => if estimateThrows d.cfg s q then (d, "throw") else if estimateUB d.cfg s then (d, "ub") else (d, "E " ++ hexOrNan32 (estimate d.cfg (kernelF32 ker) s q))
         | none => (d, "bad-op")
       | none => (d, "throw")
     | none => (d, "bad-op")
@@ -125,13 +126,13 @@ def stepLine (d : DState) (w : List String) : DState × String :=
         match d.get' i, d.get' j with
         | some (.f64 ker s), some (.f64 ker' o) =>
           if (ker == 0) != (ker' == 0) then (d, "throw") else   -- different Kernel template arguments: not mergeable
-          if mergeThrows s o then (d, "throw") else
-          let x := merge (concretePicker (kernelF64 ker)) d.src s o
+          if mergeThrows d.cfg s o then (d, "throw") else
+          let x := merge d.cfg (concretePicker (kernelF64 ker)) d.src s o
           fin { d with src := x.2 } (Obj.f64 ker x.1)
         | some (.f32 ker s), some (.f32 ker' o) =>
           if (ker == 0) != (ker' == 0) then (d, "throw") else
-          if mergeThrows s o then (d, "throw") else
-          let x := merge (concretePicker (kernelF32 ker)) d.src s o
+          if mergeThrows d.cfg s o then (d, "throw") else
+          let x := merge d.cfg (concretePicker (kernelF32 ker)) d.src s o
           fin { d with src := x.2 } (Obj.f32 ker x.1)
         | _, _ => (d, "throw")
       else if op == "copy" then
